@@ -3,7 +3,7 @@
 use super::common::*;
 use super::{Property, Tier, Verdict};
 use crate::entropy::Rng;
-use crate::exec::{Op, RunLog, Scenario};
+use crate::exec::{Consume, Op, RunLog, Scenario};
 use crate::krpc::{id20, parse_compact_nodes, parse_values, Msg};
 use crate::log::{ApiEv, EpKind, Ev, SendOutcome};
 use crate::net::{Outage, OutageMode};
@@ -27,6 +27,10 @@ pub struct SearchView {
     /// first matching response per tid: tid -> (t, values, handles named)
     pub answers: BTreeMap<Vec<u8>, (u64, Vec<SocketAddr>, usize)>,
     pub told: BTreeSet<([u8; 20], SocketAddr)>,
+    /// the caller dropped the stream at t_end (nothing is known about when the lookup ended)
+    pub dropped: bool,
+    /// the caller did not poll the stream before this instant
+    pub poll_from: Option<u64>,
 }
 
 /// Reconstruct every search of `node` from the log (searches are told apart by info-hash).
@@ -37,7 +41,7 @@ pub fn search_views(sc: &Scenario, run: &RunLog, node_idx: usize) -> Vec<SearchV
     for e in &run.log {
         match e {
             Ev::Api { t, step, ev } => match ev {
-                ApiEv::SearchStart { node: n, ih, .. } if *n == node_idx => views.push(SearchView { step: *step, ih: *ih, t_call: *t, t_end: None, items: vec![], queries: vec![], answers: BTreeMap::new(), told: BTreeSet::new() }),
+                ApiEv::SearchStart { node: n, ih, .. } if *n == node_idx => views.push(SearchView { step: *step, ih: *ih, t_call: *t, t_end: None, items: vec![], queries: vec![], answers: BTreeMap::new(), told: BTreeSet::new(), dropped: false, poll_from: None }),
                 ApiEv::SearchItem { addr } => {
                     if let Some(v) = views.iter_mut().find(|v| v.step == *step) {
                         v.items.push(*addr);
@@ -48,13 +52,24 @@ pub fn search_views(sc: &Scenario, run: &RunLog, node_idx: usize) -> Vec<SearchV
                         v.t_end = Some(*t);
                     }
                 }
+                ApiEv::SearchDropped => {
+                    if let Some(v) = views.iter_mut().find(|v| v.step == *step) {
+                        v.t_end = Some(*t);
+                        v.dropped = true;
+                    }
+                }
+                ApiEv::Note(n) if n == "poll_start" => {
+                    if let Some(v) = views.iter_mut().find(|v| v.step == *step) {
+                        v.poll_from = Some(*t);
+                    }
+                }
                 _ => {}
             },
             Ev::Send { t, src, dst, bytes, outcome, .. } if *src == node => {
                 if let Some(m) = Msg::parse(bytes) {
                     if m.qname() == Some("get_peers") {
                         let ih = m.args().and_then(|a| a.get("info_hash")).and_then(id20);
-                        if let Some(v) = views.iter_mut().rev().find(|v| Some(v.ih) == ih && v.t_call <= *t && v.t_end.map(|te| te >= *t).unwrap_or(true)) {
+                        if let Some(v) = views.iter_mut().rev().find(|v| Some(v.ih) == ih && v.t_call <= *t && (v.dropped || v.t_end.map(|te| te >= *t).unwrap_or(true))) {
                             let failed = matches!(outcome, SendOutcome::SendErr(_));
                             v.queries.push((m.t.clone(), *dst, *t, !failed, failed));
                         }
@@ -66,7 +81,7 @@ pub fn search_views(sc: &Scenario, run: &RunLog, node_idx: usize) -> Vec<SearchV
                 if let Some(m) = Msg::parse(cut) {
                     if let Some(r) = m.resp() {
                         for v in views.iter_mut() {
-                            if v.t_end.map(|te| te < *t).unwrap_or(false) {
+                            if v.t_end.map(|te| te < *t).unwrap_or(false) && !v.dropped {
                                 continue;
                             }
                             if v.queries.iter().any(|q| q.0 == m.t) && !v.answers.contains_key(&m.t) {
@@ -197,10 +212,31 @@ impl Property for C04 {
             }
             t = t_search + *rng.pick(&[16 * 60_000u64, 40 * 60_000, 3 * 3_600_000]);
         }
+        // a popular info-hash whose stream the application reads late (or slowly) must not hold up
+        // the node's other searches: hundreds of values sit unread while a second search runs
+        let unread = !stale && n >= 4 && rng.chance(1, 6);
+        if unread {
+            let per = if v6 { rng.range(20, 50) } else { rng.range(40, 120) } as u32;
+            for (i, s) in sc.world.stubs.iter_mut().enumerate() {
+                if s.get_peers_answer.is_none() && s.delay_ms == 0 {
+                    s.peers.retain(|(h, _)| *h != ih);
+                    s.peers.push((ih, (0..per).map(|k| addr(v6, 4, 2_000 + i as u32 * 200 + k, 9000)).collect()));
+                }
+            }
+            sc.params.insert("unread".into(), 1);
+        }
         for k in 0..n_s {
             let h = if k == 0 { ih } else { rng.id20() };
             sc.at(t, Op::Sample { node: 0, table: true });
-            sc.at(t, Op::Search { node: 0, ih: h, announce: rng.chance(1, 2) });
+            if unread && k == 0 {
+                let mode = if rng.chance(1, 4) { Consume::DropAfterMs(*rng.pick(&[0u64, 500, 2_000])) } else { Consume::PollAfterMs(*rng.pick(&[4_000u64, 20_000, 120_000])) };
+                sc.at(t, Op::SearchX { node: 0, ih: h, announce: rng.chance(1, 2), mode });
+                if n_s == 1 {
+                    sc.at(t + *rng.pick(&[0u64, 300, 1_000]), Op::Search { node: 0, ih: rng.id20(), announce: false });
+                }
+            } else {
+                sc.at(t, Op::Search { node: 0, ih: h, announce: rng.chance(1, 2) });
+            }
             t += *rng.pick(&[0u64, 700, 3_500, 10_000]);
         }
         // shutdown with searches in flight: every handle is dropped (the search steps keep none),
@@ -276,7 +312,10 @@ impl Property for C04 {
                     }
                     Some(te) if te >= td => {
                         v.hit("closed_by_shutdown");
-                        if te > td + 2 {
+                        if s.dropped {
+                            continue;
+                        }
+                        if te > td.max(s.poll_from.unwrap_or(0)) + 2 {
                             v.violate("C04", "open_after_shutdown", te, format!("node shut down at {td} ms; the search issued at {} ms closed only at {te} ms", s.t_call));
                         }
                         continue;
@@ -286,6 +325,11 @@ impl Property for C04 {
             }
             if boot_done.map(|b| s.t_call < b).unwrap_or(true) {
                 v.hit("search_before_bootstrap_not_judged");
+                continue;
+            }
+            if s.dropped {
+                // the caller walked away; nothing observable about this stream's end
+                v.hit("stream_dropped_by_caller");
                 continue;
             }
             let on_wire: Vec<&(Vec<u8>, SocketAddr, u64, bool, bool)> = s.queries.iter().filter(|q| q.3).collect();
@@ -314,12 +358,17 @@ impl Property for C04 {
             // (a) upper bound
             let dsts: BTreeSet<SocketAddr> = s.queries.iter().map(|q| q.1).collect();
             let k = (dsts.len() + s.told.len()) as u64;
-            let bound = t0 + Q_MS * k + 3_000 + 2;
+            let mut bound = t0 + Q_MS * k + 3_000 + 2;
+            if let Some(tp) = s.poll_from {
+                // the application started reading at tp: the end cannot be observed before that
+                v.hit("stream_read_late");
+                bound = bound.max(tp + 2);
+            }
             if te > bound {
                 v.violate("C04", "search_too_long", te, format!("search started querying at {t0} ms and closed at {te} ms; it was told about {k} nodes, bound {bound} ms"));
             }
             // (b) nobody answers
-            if s.answers.is_empty() && !on_wire.is_empty() {
+            if s.answers.is_empty() && !on_wire.is_empty() && s.poll_from.is_none() {
                 v.hit("nobody_answered");
                 let first_round: Vec<u64> = s.queries.iter().filter(|q| q.2 < t0 + Q_MS).map(|q| q.2).collect();
                 let t_first = *first_round.iter().min().unwrap();
@@ -346,7 +395,7 @@ impl Property for C04 {
                     }
                 }
                 // (c2) never closes while a query is younger than 1.5 s and unanswered
-                for q in &on_wire {
+                for q in on_wire.iter().filter(|_| s.poll_from.is_none()) {
                     let answered_before_close = s.answers.get(&q.0).map(|a| a.0 <= te).unwrap_or(false);
                     if !answered_before_close && te + 2 < q.2 + Q_MS {
                         v.violate("C04", "closed_with_young_query", te, format!("search closed at {te} ms while its query to {} sent at {} ms was unanswered and only {} ms old", q.1, q.2, te - q.2));
@@ -355,6 +404,9 @@ impl Property for C04 {
                 }
             } else {
                 v.hit("send_failed_during_search");
+            }
+            if s.poll_from.is_some() && s.items.len() > 256 {
+                v.hit("unread_values_over_256");
             }
             if s.told.len() > 30 {
                 v.hit("told_about_30_plus_nodes");
@@ -369,12 +421,12 @@ impl Property for C04 {
         v
     }
     fn rule(&self) -> &'static str {
-        "one real node bootstrapped against 0..30 stubs whose get_peers behaviour varies per stub: silent, partial (pattern), late (RTT 1.4..3.1 s around the 1.5 s timeout), silent after bootstrap, chain-naming (<= 25 levels x 8 names), error/garbage repliers, honest with peers; optional loss/duplication during the search, send failures (outage windows or random) before/during the search; 1..3 searches, sequential or overlapping, or issued after every contact has gone stale; in 1 run of 8 every handle of the node is dropped 0..9 s into the searches (shutdown: open streams must close at once); plus a single-fault sweep (drop / delay past 1.5 s / duplicate / send error on each search datagram) on a subset of fault-free base runs. non-trivial = a search sent at least one query; distinct = distinct order digests"
+        "one real node bootstrapped against 0..30 stubs whose get_peers behaviour varies per stub: silent, partial (pattern), late (RTT 1.4..3.1 s around the 1.5 s timeout), silent after bootstrap, chain-naming (<= 25 levels x 8 names), error/garbage repliers, honest with peers; optional loss/duplication during the search, send failures (outage windows or random) before/during the search; 1..3 searches, sequential or overlapping, or issued after every contact has gone stale; in 1 run of 6 (>= 4 stubs) one search is for a popular info-hash (40..120 values per answer) whose stream the caller reads only 4..120 s later or drops, while another search runs; in 1 run of 8 every handle of the node is dropped 0..9 s into the searches (shutdown: open streams must close at once); plus a single-fault sweep (drop / delay past 1.5 s / duplicate / send error on each search datagram) on a subset of fault-free base runs. non-trivial = a search sent at least one query; distinct = distinct order digests"
     }
     fn assumptions(&self) -> Vec<&'static str> {
         vec!["no socket stalls in this family (they would move the query instants the early-close clause is measured from)", "+-2 ms timer granularity", "'node has shut down' is produced by dropping every handle while search streams are open (a handler killed by a panic cannot be produced through the public API after the C15 repair)"]
     }
     fn required_reach(&self) -> Vec<&'static str> {
-        vec!["nobody_answered", "timely_answer", "late_answer", "send_failed_during_search", "told_about_30_plus_nodes", "search_longer_than_6s", "search_without_good_node", "closed_by_shutdown"]
+        vec!["nobody_answered", "timely_answer", "late_answer", "send_failed_during_search", "told_about_30_plus_nodes", "search_longer_than_6s", "search_without_good_node", "closed_by_shutdown", "stream_read_late", "unread_values_over_256"]
     }
 }
